@@ -9,6 +9,7 @@ import (
 
 	"google.golang.org/grpc"
 	"google.golang.org/grpc/metadata"
+	"google.golang.org/protobuf/proto"
 
 	clusterv1 "github.com/apache/skywalking-banyandb/api/proto/banyandb/cluster/v1"
 	"github.com/apache/skywalking-banyandb/banyand/queue"
@@ -44,6 +45,9 @@ func (c cstream) Send(r *req) error {
 	i := p.nReq
 	p.nReq++
 	p.mu.Unlock()
+	// gRPC serialises a message inside Send: the receiver never shares memory with the sender (which
+	// reuses its chunk buffer as soon as Send returns). Model that with a deep copy.
+	r = proto.Clone(r).(*req)
 	out := []*req{r}
 	cut := false
 	if p.onReq != nil {
@@ -64,6 +68,15 @@ func (c cstream) Send(r *req) error {
 }
 
 func (c cstream) Recv() (*resp, error) {
+	// a message that is already there is delivered before a cancellation is noticed (select would pick at random)
+	select {
+	case r, ok := <-c.p.s2c:
+		if !ok {
+			return nil, io.EOF
+		}
+		return r, nil
+	default:
+	}
 	select {
 	case r, ok := <-c.p.s2c:
 		if !ok {
@@ -98,6 +111,14 @@ func (s sstream) Recv() (*req, error) {
 			return nil, io.EOF
 		}
 		return r, nil
+	default:
+	}
+	select {
+	case r, ok := <-s.p.c2s:
+		if !ok {
+			return nil, io.EOF
+		}
+		return r, nil
 	case <-s.p.ctx.Done():
 		return nil, s.p.ctx.Err()
 	}
@@ -109,6 +130,7 @@ func (s sstream) Send(r *resp) error {
 	i := p.nResp
 	p.nResp++
 	p.mu.Unlock()
+	r = proto.Clone(r).(*resp)
 	out := []*resp{r}
 	if p.onResp != nil {
 		out = p.onResp(i, r)
